@@ -66,6 +66,9 @@ class HwCheck:
     # ---- terms
     def v(self, sig): return self.ts.rd(sig)
     def n(self, sig): return self.nxt.get(sig, self.v(sig))
+    def inline_next(self, sig):
+        """value of a comb output in the next cycle (same next-cycle inputs are NOT assumed: inputs become fresh)"""
+        return self.primed(self.v(sig))
     def const(self, name, width):
         """rigid symbolic constant (same value in every cycle), e.g. the tracked address of the symbolic-address method"""
         c = z3.BitVec(f"c_{name}", width); self.rigid.add(str(c)); self.consts_decl[name] = c; return c
@@ -369,7 +372,9 @@ class HwCheck:
         trace = [[rnd.getrandbits(i.nbits) if rnd.random() < 0.7 else rnd.choice([0, (1 << i.nbits) - 1]) for i in ins] for _ in range(cycles)]
         mem_sigs = set()
         for arr in self.ts.mems.values(): mem_sigs |= set(arr)
-        obs = [s for s in list(self.ts.comb_targets) + self.ts.state if s in self.ts.var]
+        # signals created by our own lowering (MemoryToArray address registers, lowered specials) do not exist in the
+        # real simulator's copy: compare original signals and memory cells only
+        obs = [s for s in list(self.ts.comb_targets) + self.ts.state if s in self.ts.var and (s in self.ts.orig_signals or s in mem_sigs)]
         names = [str(self.ts.var[s]) for s in obs]
         rows = self.real_sim(trace, names)
         state = {s: s.reset.value & ((1 << s.nbits) - 1) for s in self.ts.state}
